@@ -29,6 +29,7 @@ type Result struct {
 	Rest       []byte   // legacy: trailing bytes that do not frame as packets
 	UnitsOK    bool     // websocket: every message was exactly one packet (always true on legacy)
 	Ended      bool     // the gateway ended the tunnel (ws: EOF/close; legacy: IN connection closed)
+	OutEnded   bool     // legacy: the RDG_OUT_DATA connection reached end-of-stream as well (ws: same as Ended)
 	SendErr    string
 	SleepSync  bool
 }
@@ -41,6 +42,7 @@ func Collect(c gwc.Conn, wait time.Duration) Result {
 	switch cc := c.(type) {
 	case *gwc.WS:
 		r.Ended = cc.WaitEOF(wait)
+		r.OutEnded = r.Ended
 		for _, u := range cc.Units() {
 			p, rest := tsgu.SplitStream(u)
 			if len(p) != 1 || rest != nil {
@@ -54,6 +56,7 @@ func Collect(c gwc.Conn, wait time.Duration) Result {
 	case *gwc.Legacy:
 		r.Ended = cc.WaitInClosed(wait)
 		cc.Settle()
+		r.OutEnded = cc.WaitEOF(5 * time.Second) // immediate when Settle already saw the end
 		r.Pkts, r.Rest = tsgu.SplitStream(cc.Stream())
 		r.SleepSync = cc.SleepSync
 	}
